@@ -143,6 +143,10 @@ def check(h, m) -> list:
                 from hugr import val as _val
                 if isinstance(cv, _val.Function):
                     out.extend(f"function constant loaded by {n.idx}: {e}" for e in func_term(t.args[1], cv.body))
+                elif cv is not None and t.args[1] != cv.to_model():
+                    out.append(f"node {n.idx}: the inlined constant is not the one the load is linked to")
+                if cv is not None and t.args[0] != op.type_.to_model():
+                    out.append(f"node {n.idx}: inlined constant type is not the load's type")
         if isinstance(op, ops.FuncDefn | ops.FuncDecl):
             if not isinstance(mn.operation, model.DefineFunc | model.DeclareFunc):
                 out.append(f"node {n.idx}: function exported as {type(mn.operation).__name__}")
